@@ -227,14 +227,17 @@ def build_plans(world):
     # the very first observation takes the listings and values BEFORE it asks for tags and path; the regular
     # snapshots ask the other way round - both must agree
     # before anything was asked or written: the object as override and as base of a merge (repeated at the very end)
-    ops.append({"op": "merge", "o": 6, "usr": 1, "etc": obj, "need": ["usr", "etc"], "tag": "m_pre"})
-    ops.append({"op": "dump", "k": 6, "ext": False, "tag": "m_pre_dump"})
-    ops.append({"op": "free", "k": 6})
-    ops.append({"op": "merge", "o": 6, "usr": obj, "etc": 1, "need": ["usr", "etc"], "tag": "m_pre"})
-    ops.append({"op": "dump", "k": 6, "ext": False, "tag": "m_pre_dump"})
-    ops.append({"op": "free", "k": 6})
+    # Which of the two comes first alternates by seed: a merge that rearranges its INPUT is visible only if the first
+    # write precedes it, a write that rearranges the object only if the first merge precedes it.
+    first_merges = [{"op": "merge", "o": 6, "usr": 1, "etc": obj, "need": ["usr", "etc"], "tag": "m_pre"},
+                    {"op": "dump", "k": 6, "ext": False, "tag": "m_pre_dump"},
+                    {"op": "free", "k": 6},
+                    {"op": "merge", "o": 6, "usr": obj, "etc": 1, "need": ["usr", "etc"], "tag": "m_pre"},
+                    {"op": "dump", "k": 6, "ext": False, "tag": "m_pre_dump"},
+                    {"op": "free", "k": 6}]
     # before anything was asked: what the untouched object writes (the listings below use the getters themselves)
-    ops.append({"op": "write", "k": obj, "dir": "$ROOT/out", "name": "untouched.conf", "readback": True, "tag": "pre"})
+    first_write = [{"op": "write", "k": obj, "dir": "$ROOT/out", "name": "untouched.conf", "readback": True, "tag": "pre"}]
+    ops += (first_write + first_merges) if world.get("_seed", 0) % 2 else (first_merges + first_write)
     ops.append({"op": "dump", "k": obj, "ext": True, "order": 1, "tag": "dfirst"})
     ops += snapshot("d0")
     # what a write produces is a function of the object: the same bytes in a file that did not exist before
@@ -296,7 +299,7 @@ def check(world, plans, results):
         v.fail("mutated:dump", "two complete listings in a row differ (a tag/path query or a getter inside the listing changed the object): %s" % first_diff(bytag["dfirst"][0], bytag["d0"][0]))
     w0 = canon(strip_volatile(bytag["d0w"][0]))
     if bytag.get("pre") and bytag["pre"][0].get("rc") == 0 and bytag["pre"][0].get("bytes") != bytag["d0w"][0].get("bytes"):
-        v.fail("mutated:first-listing", "the object wrote %d bytes before anything was asked and %d bytes after the first complete listing" % (len(bytag["pre"][0].get("bytes") or ""), len(bytag["d0w"][0].get("bytes") or "")))
+        v.fail("mutated:first-listing", "the object wrote %d bytes before anything was asked and %d bytes after the first complete listing (and, in every second world, the first merges with the object as input)" % (len(bytag["pre"][0].get("bytes") or ""), len(bytag["d0w"][0].get("bytes") or "")))
     if bytag.get("m_pre_dump") and bytag.get("m_post_dump") and canon(strip_volatile(bytag["m_pre_dump"])) != canon(strip_volatile(bytag["m_post_dump"])):
         v.fail("mutated:as-merge-input", "a merge with the object as input gives another result after the queries and writes than before them: %s" % first_diff({"m": bytag["m_pre_dump"]}, {"m": bytag["m_post_dump"]}))
     if bytag.get("fresh") and bytag["fresh"][0].get("bytes") != bytag["d0w"][0].get("bytes"):
